@@ -528,6 +528,15 @@ _c['relevant'] = (lambda old: lambda c: old(c) or kind(c) == 'drift')(_c['releva
 _c['project'] = (lambda old: lambda c: proj_first2(c) if kind(c) == 'drift' else old(c))(_c['project'])
 _c['rule'] = _c.get('rule', '') + " || plus six process-level runs of the release daemon restarting over a previous instance's segment (a live Synchronized record / the never-synchronised placeholder record), also inside a time namespace in which CLOCK_MONOTONIC reads ~120 s (a machine that has just booted, so that the placeholder's void-after of 1000 s has not passed), with chronyd absent or a stand-in chronyd answering leap status 3: the first record published must say Unknown"
 
+# C04 / C11 on long-lived clients across ORDERLY restarts (the crash grid covers deaths): sessions containing op `r`
+for _p in ('C04', 'C11'):
+    _c = PROPS[_p]
+    _c['gens'] = (lambda old: lambda seed, th: old(seed, th) + [['session', seed, 20000 if th else 1200]])(_c['gens'])
+    _c['relevant'] = (lambda old: lambda c: old(c) or (kind(c) == 'session' and 'restarted' in c.tags))(_c['relevant'])
+    _c['project'] = (lambda old: lambda c: proj_session('all')(c) if kind(c) == 'session' else old(c))(_c['project'])
+    _c['rule'] = _c.get('rule', '') + " || plus the `session` lines that contain op `r` (the daemon's ShmWriter is dropped in an orderly way and a new ShmWriter::new takes the segment over, also right after the generation / version word was poked odd, 65535 or 0): the generation word the restarted daemon goes on from is the one it found (never 0 after a non-zero one), and attached and new clients are answered as if nothing had happened"
+    if 'build_cclient' not in str(_c.get('pre', '')): _c['pre'] = 'build_cclient'
+
 # properties whose theorem files are still being proved are not claimed yet
 for _p in ():
     PROPS[_p]['claimed'] = False
